@@ -471,6 +471,24 @@ func (x *X) envAt(fr *frame, li *loopInfo, phiVals map[*ssa.Phi]Val) *Env {
 			}
 		}
 	}
+	if li != nil {
+		for _, b := range fr.fn.Blocks {
+			if !li.blocks[b.Index] {
+				continue
+			}
+			for _, in := range b.Instrs {
+				if nx, ok := in.(*ssa.Next); ok {
+					if rg, ok := nx.Iter.(*ssa.Range); ok {
+						if it, ok := fr.iters[rg]; ok && it.MapT != nil {
+							if sv, ok := x.st.cells[it.Cell]; ok {
+								env.vars["$seen"] = TV{sv, nil}
+							}
+						}
+					}
+				}
+			}
+		}
+	}
 	for phi, v := range phiVals {
 		if phi.Comment != "" && phi.Comment != "rangeindex" {
 			env.vars[phi.Comment] = TV{v, phi.Type()}
@@ -569,7 +587,10 @@ func (x *X) cutLoop(fr *frame, order []*ssa.BasicBlock, li *loopInfo) {
 		for _, in := range b.Instrs {
 			if nx, ok := in.(*ssa.Next); ok {
 				if rg, ok := nx.Iter.(*ssa.Range); ok {
-					if it, ok := fr.iters[rg]; ok {
+					if it, ok := fr.iters[rg]; ok && it.MapT != nil {
+						old := x.st.cells[it.Cell].(S)
+						x.st.cells[it.Cell] = S{x.fresh("rangeseen", old.Sort), old.Sort}
+					} else if ok {
 						pos := x.fresh("rangepos", SInt)
 						x.assume(fmt.Sprintf("(and (<= 0 %s) (<= %s (gs.len %s)))", pos, pos, it.Str))
 						x.st.cells[it.Cell] = S{pos, SInt}
